@@ -172,3 +172,18 @@ class Ctx:
         (ROOT / "evidence").mkdir(exist_ok=True)
         (ROOT / "evidence" / f"{self.pid}.json").write_text(json.dumps(ev, indent=1, default=str) + "\n")
         return ev
+
+
+def decoy(storage, k):
+    """An unrelated study with k finished trials, created BEFORE the study under test: afterwards storage-wide trial ids
+    and per-study trial numbers differ, as they do on every shared storage (id/number confusions stay visible)."""
+    if k <= 0:
+        return
+    import optuna
+
+    lvl = optuna.logging.get_verbosity()
+    d = optuna.create_study(storage=storage, direction="maximize")
+    for j in range(k):
+        d.add_trial(optuna.trial.create_trial(value=float(100 + j), params={"zz": 0.5},
+                                              distributions={"zz": optuna.distributions.FloatDistribution(0.0, 1.0)}))
+    optuna.logging.set_verbosity(lvl)
